@@ -91,11 +91,21 @@ def dispatchNet (op : String) (j : Json) : R (Option Json) := do
       let ws ← listOf (listOf floatOfJson) (← arg j "weights")
       let xs ← listOf (listOf floatOfJson) (← arg j "x")      -- rows of X (one value per input id order)
       let inIds := n.inputs
+      -- the node buffer is materialised as an array after every group (the model threads a
+      -- function `Nat → α`; evaluating nested closures directly would recompute earlier groups)
+      let nNodes := (n.nodes.foldl max 0) + 1
+      let runArr (w : List Float) (buf : Array Float) : Array Float :=
+        sch.foldl (fun (b : Array Float) g =>
+          ((List.range nNodes).map (runGroup n fAct fSoftmax w (fun i => b.getD i 0.0) g)).toArray) buf
       let res := xs.map fun row =>
         let x : Nat → Float := fun i => match inIds.idxOf? i with
           | some k => row.getD k 0.0
-          | none => 0.0
-        forwardBatch n fAct fSoftmax sch x (fun _ => 12345.678) ws
+          | none => 12345.678
+        let buf0 : Array Float := ((List.range nNodes).map x).toArray
+        -- the buffer is reused across the batch of weight vectors, as in forward2d
+        (ws.foldl (fun (acc : Array Float × List (List Float)) w =>
+            let b := runArr w acc.1
+            (b, acc.2 ++ [n.outputs.map fun o => b.getD o 0.0])) (buf0, [])).2
       -- res[sample][weightrow][output]
       return some (jList (jList (jList jFloat)) res)
   | _ => return none
